@@ -1,5 +1,8 @@
 import CogentModel.Model.Composable
 import CogentModel.Proofs.ComposableLemmas
+import CogentModel.Proofs.ComposableSqlite
+import CogentModel.Model.ParallelBook
+import CogentModel.Proofs.ParallelBookLemmas
 /-! # C14 — composed apps account for every input exactly once, on any schedule
 
 `callChain steps v` mirrors `_call` on a composed app (steps listed from the outermost to the
@@ -258,5 +261,87 @@ theorem apply_any_schedule_sqlite (idOf : Nat → Id) (app : Nat → Val) (s : S
   simpa [hasAny] using this
 example : applyToBy hasAny (fun m => m % 10) (fun m => .ok ⟨1, m, some m⟩) [(2, .nc ⟨.error, 2, .exc 1, some 22⟩)] [11, 22, 33] [1, 0]
     = some [(2, .nc ⟨.error, 2, .exc 1, some 22⟩), (3, .ok ⟨1, 33, some 33⟩), (1, .ok ⟨1, 11, some 11⟩)] := by decide
+
+
+/-- **Resume, SQLite store** (`DataStoreSqlite`: ANY stored record, completed or not, makes `_apply_to`
+skip the input): re-running over the results of any prefix of a previous run (any order both times)
+gives every originally selected input exactly one record equal to the app's result on that input
+alone — the same as one uninterrupted run (`apply_any_schedule_sqlite`) — and an input whose record
+(completed OR not-completed) was written before the interruption is not selected again: on this store
+class a failed input is never retried. -/
+theorem apply_idempotent_resume_sqlite (idOf : Nat → Id) (app : Nat → Val) (s : Store) (inputs : List Nat)
+    (sel : List (Id × Nat)) (hsel : selectBy (hasAny s) idOf inputs [] = some sel)
+    (results : List (Nat × Val)) (hperm : results.Perm (sel.map (wrapped app))) (j : Nat)
+    (sel' : List (Id × Nat)) (hsel' : selectBy (hasAny (writeAll idOf s (results.take j))) idOf inputs [] = some sel')
+    (results' : List (Nat × Val)) (hperm' : results'.Perm (sel'.map (wrapped app))) :
+    (∀ p ∈ sel, entries (writeAll idOf (writeAll idOf s (results.take j)) results') p.1
+        = entries (writeAll idOf s results) p.1) ∧
+    (∀ p ∈ sel, (p.2, app p.2) ∈ results.take j → ∀ q ∈ sel', q.1 ≠ p.1) := by
+  have a := resume_same_store_by idOf app s inputs sel hsel results hperm j sel' hsel' results' hperm'
+  have b := apply_any_schedule_by idOf app s inputs sel (selectBy_spec idOf s inputs sel hsel) results hperm
+  exact ⟨fun p hp => (a.1 p hp).trans (b.1 p hp).symm, a.2⟩
+
+example :
+    let idOf : Nat → Id := fun m => m % 10
+    let app : Nat → Val := fun m => if m = 22 then .nc ⟨.error, 2, .exc 1, some 22⟩ else .ok ⟨1, m, some m⟩
+    let s1 := writeAll idOf [] [(22, app 22), (11, app 11)]
+    selectBy (hasAny s1) idOf [11, 22, 33] [] = some [(3, 33)] ∧
+    applyToBy hasAny idOf app s1 [11, 22, 33] [0] = applyToBy hasAny idOf app [] [11, 22, 33] [1, 0, 2] := by decide
+
+/-! ### `util/parallel`: every submitted task's result arrives exactly once (bookkeeping theorems)
+
+The pool itself is an assumption (each submitted future completes exactly once =
+`order.Perm (List.range n)`); what the code adds around it — one future per element, collection
+in completion order, chunking for `imap`/`map` — is modelled in `Model/ParallelBook.lean`. -/
+open CogentModel.ParallelBook
+
+/-- `as_completed` (`to_do = [submit(f, e) for e in s]; for fut in as_completed(to_do): yield fut.result()`):
+for every input list, every worker count (irrelevant to the bookkeeping) and every completion order of
+the futures, the yielded results are a permutation of `[f(e) for e in s]`. -/
+theorem as_completed_every_result_once {α β} (f : α → β) (s : List α) (order : List Nat)
+    (hpool : order.Perm (List.range s.length)) : (asCompleted f s order).Perm (s.map f) :=
+  asCompleted_perm f s order hpool
+
+/-- the serial path yields the results in input order -/
+theorem serial_in_order {α β} (f : α → β) (s : List α) : serialResults f s = s.map f := rfl
+
+/-- `imap` / `map` (`executor.map(f, s, chunksize=c)`): for every `n` and every chunk size `c ≥ 1`
+(dividing `n` or not: the trailing partial chunk is a task too) the chained results are exactly
+`[f(e) for e in s]`, in order. -/
+theorem imap_every_result_once_in_order {α β} (f : α → β) (s : List α) (c : Nat) (hc : 0 < c) :
+    imapResults f s c = s.map f :=
+  imap_results f s c hc
+
+/-- the default chunk size is ≥ 1 whenever there is something to do -/
+theorem default_chunksize_pos (n w : Nat) (hn : 0 < n) (hw : 0 < w) : 0 < defaultChunksize n w := by
+  unfold defaultChunksize
+  by_cases h : n % (w * 4) ≠ 0
+  · simp [h]
+  · have h' : n % (w * 4) = 0 := by simpa using h
+    have hq : n = (w * 4) * (n / (w * 4)) := by
+      have := Nat.div_add_mod n (w * 4); omega
+    simp only [h, if_false]
+    rcases Nat.eq_zero_or_pos (n / (w * 4)) with e | e
+    · rw [e] at hq; omega
+    · exact e
+
+example : chunks 3 [0, 1, 2, 3, 4, 5, 6, 7, 8, 9] = [[0, 1, 2], [3, 4, 5], [6, 7, 8], [9]] := by decide
+example : asCompleted (fun x => x * x) [1, 2, 3] [2, 0, 1] = [9, 1, 4] := by decide
+example : defaultChunksize 10 2 = 2 ∧ defaultChunksize 8 2 = 1 := by decide
+
+/-- **Any schedule, stated with the pool assumption only**: the results `_apply_to` writes are
+`as_completed(app, selected)`; if every submitted future completes exactly once (in whatever
+order), each selected input gets exactly one record under its own identifier equal to the app's
+result on that input alone, and every other identifier is untouched.  ("Every result arrives exactly
+once" is no longer a hypothesis: it is `as_completed_every_result_once`.) -/
+theorem apply_parallel_any_pool (idOf : Nat → Id) (app : Nat → Val) (s : Store) (inputs : List Nat)
+    (sel : List (Id × Nat)) (hsel : select idOf s inputs [] = some sel)
+    (order : List Nat) (hpool : order.Perm (List.range sel.length)) :
+    applyTo idOf app s inputs order = some (writeAll idOf s (asCompleted (wrapped app) sel order)) ∧
+    (∀ p ∈ sel, entries (writeAll idOf s (asCompleted (wrapped app) sel order)) p.1 = [(p.1, app p.2)]) ∧
+    (∀ i, (∀ p ∈ sel, p.1 ≠ i) → entries (writeAll idOf s (asCompleted (wrapped app) sel order)) i = entries s i) := by
+  have h := apply_any_schedule idOf app s inputs sel hsel _ (asCompleted_perm (wrapped app) sel order hpool)
+  refine ⟨?_, h.1, h.2⟩
+  simp [applyTo, hsel, schedule, asCompleted, submitAll]
 
 end CogentModel.C14
